@@ -343,6 +343,81 @@ theorem predict_is_argmax (ln2pi : ℝ) (d : Nat) (w : List ℝ) (mu : List (Lis
   rw [h] at h1
   exact hk (List.length_eq_zero_iff.mp h1.symm)
 
+
+/-! ## One EM iteration keeps the mixture valid
+
+`emStep` = `e_step` on the current mixture followed by `m_step` on `exp(log_resp)`: whatever the current
+parameters are (any weights list with at least one component, any means, any `precisions_chol`), the
+parameters after the iteration are a valid mixture or the iteration is an error.  With `fit_ok_converged`
+(a returned model is chain state `i ≥ 2`, i.e. the result of such an iteration) this is the statement for
+every model `fit` returns, for all data, configurations and iteration counts. -/
+
+theorem range_map_getD {α : Type} [OfNat α 0] (l : List α) :
+    (List.range l.length).map (fun j => l.getD j 0) = l := by
+  apply List.ext_getElem
+  · simp
+  · intro i h1 h2
+    simp at h1
+    simp [List.getD_eq_getElem?_getD, h1]
+
+theorem eResp_row (ln2pi : ℝ) (d : Nat) (w : List ℝ) (mu : List (List ℝ))
+    (pcs : List (List (List ℝ))) (x : List (List ℝ)) (i : Nat) (hi : i < x.length) :
+    (eResp ln2pi d w mu pcs x).getD i [] = predictProba ln2pi d w mu pcs (x[i]) := by
+  simp [eResp, List.getD_eq_getElem?_getD, hi]
+
+/-- the responsibilities of an E-step: every row sums to one … -/
+theorem eResp_row_sum (ln2pi : ℝ) (d : Nat) (w : List ℝ) (mu : List (List ℝ))
+    (pcs : List (List (List ℝ))) (x : List (List ℝ)) (hk : w ≠ []) :
+    ∀ i, i < x.length → sumRange w.length (fun j => at2 (eResp ln2pi d w mu pcs x) i j) = 1 := by
+  intro i hi
+  have hlen := (proba_nonneg ln2pi d w mu pcs (x[i])).1
+  unfold sumRange at2
+  rw [eResp_row ln2pi d w mu pcs x i hi, ← hlen, range_map_getD]
+  exact proba_sum_one ln2pi d w mu pcs (x[i]) hk
+
+/-- … and every entry is non-negative -/
+theorem eResp_nonneg (ln2pi : ℝ) (d : Nat) (w : List ℝ) (mu : List (List ℝ))
+    (pcs : List (List (List ℝ))) (x : List (List ℝ)) :
+    ∀ i j, i < x.length → j < w.length → 0 ≤ at2 (eResp ln2pi d w mu pcs x) i j := by
+  intro i j hi hj
+  obtain ⟨hlen, hpos⟩ := proba_nonneg ln2pi d w mu pcs (x[i])
+  unfold at2
+  rw [eResp_row ln2pi d w mu pcs x i hi]
+  have hj' : j < (predictProba ln2pi d w mu pcs (x[i])).length := by rw [hlen]; exact hj
+  rw [List.getD_eq_getElem?_getD, List.getElem?_eq_getElem hj']
+  exact le_of_lt (hpos _ (List.getElem_mem hj'))
+
+/-- **the valid-mixture invariant is inductive over EM iterations**: after `e_step; m_step` from ANY
+mixture, the weights are positive and sum to one, there is one mean per component inside the bounding
+box, and every covariance is symmetric with `vᵀΣv ≥ reg·|v|²` and diagonal `≥ reg` -/
+theorem em_step_valid (thr reg ln2pi : ℝ) (d : Nat) (w : List ℝ) (mu : List (List ℝ))
+    (pcs : List (List (List ℝ))) (x : List (List ℝ)) (p : Params ℝ)
+    (hk : w ≠ []) (hn : 0 < x.length) (hthr : 0 < thr)
+    (h : emStep thr reg ln2pi d w mu pcs x = .ok p) :
+    sumS p.weights = 1 ∧ (∀ v ∈ p.weights, 0 < v) ∧ p.means.length = w.length ∧
+    (∀ j c, j < w.length → c < d → ∀ lo hi : ℝ,
+      (∀ i, i < x.length → lo ≤ at2 x i c ∧ at2 x i c ≤ hi) →
+        lo ≤ at2 p.means j c ∧ at2 p.means j c ≤ hi) ∧
+    (∀ j a b, j < w.length → a < d → b < d →
+      at2 (p.covs.getD j []) a b = at2 (p.covs.getD j []) b a) ∧
+    (∀ j, j < w.length → ∀ v : Nat → ℝ, reg * sumRange d (fun a => v a ^ 2) ≤
+      sumRange d (fun a => sumRange d fun b => v a * at2 (p.covs.getD j []) a b * v b)) ∧
+    (∀ j a, j < w.length → a < d → reg ≤ at2 (p.covs.getD j []) a a) := by
+  unfold emStep at h
+  have hrow := eResp_row_sum ln2pi d w mu pcs x hk
+  have hnn := eResp_nonneg ln2pi d w mu pcs x
+  obtain ⟨hm1, hm2⟩ := means_in_bbox thr reg x.length d w.length x _ p hthr hnn h
+  exact ⟨weights_sum_one thr reg x.length d w.length x _ p hn hrow h,
+    weights_pos thr reg x.length d w.length x _ p hthr hn h, hm1, hm2,
+    cov_symm thr reg x.length d w.length x _ p h,
+    cov_pd thr reg x.length d w.length x _ p hthr hnn h,
+    cov_diag_ge_reg thr reg x.length d w.length x _ p hthr hnn h⟩
+
+/-- non-vacuity of `em_step_valid`'s hypotheses other than the guard: rows of an E-step on two
+observations under a two-component mixture sum to one (so an `emStep` has well-formed input) -/
+example : ∀ i, i < 2 → sumRange 2 (fun j => at2 (eResp (1 : ℝ) 1 [2/3, 1/3] [[7], [-14]] [[[4]], [[4]]] [[0], [3]]) i j) = 1 :=
+  eResp_row_sum 1 1 [2/3, 1/3] [[7], [-14]] [[[4]], [[4]]] [[0], [3]] (by simp)
+
 /-- `argmax` in general: valid index, entry maximal (any linear order, any non-empty row) -/
 theorem argmaxFirst_is_max {α : Type} [LinearOrder α] [OfNat α 0] (l : List α) (hl : l ≠ []) :
     ∃ m, l[argmaxFirst l]? = some m ∧ ∀ v ∈ l, v ≤ m := argmaxFirst_spec l hl
